@@ -22,7 +22,7 @@ vars == <<req, stage, attrs, outcome, log, stale>>
 
 ScatKinds == {"sphere", "layered", "spheres_mie", "spheres_multisphere", "spheroid", "cylinder", "sphere_mielens"}
 DetKinds == {"square", "rect_aniso", "shifted_origin", "one_by_n", "points", "multichannel"}
-Pols == {"x", "z24_3", "z24_8", "unnormalised"}
+Pols == {"x", "z24_3", "z24_8", "unnormalised", "unnormalised3"}   \* the last given with three components
 Alphas == {"zero", "one", "fraction", "negative"}
 Where == {"kw", "det", "both", "missing"}
 OptKeys == <<"illum_wavelen", "medium_index", "illum_polarization">>
